@@ -121,7 +121,7 @@ for _N, _V in _T.iterrows():
     ctx.add('C14.R2', 'get_latex', ok, l, 'the LaTeX report renders the whole parameter table' if ok else 'get_latex no longer renders the parameter table', 'latex')
     f12 = BR.methods['get_f12']
     ok = has(f12.node, """
-_T = self.get_estimated_parameters(only_robust=False)
+_T = self.get_estimated_parameters(False)
 _NAMES = _T.index.to_list()
 for _N in _NAMES:
     _V = _T.loc[_N]
